@@ -97,8 +97,8 @@ CLAIMED = {
             'and min-shifted (corr) or tie-averaged rank (rho-a, all 169 ordering paths) data RDMs over non-missing entries; both bounds '
             'proved equal to the mean over left-out groups of sim(pool(rest)|pool(all), left-out data) for singleton and grouped RDMs, so '
             'the prediction for a group provably contains no variable of that group; common missing entries = entry-deleted RDMs; upper-bound '
-            'optimality for cosine and corr through linking identities + solver-checked Lagrange identity + abstraction.',
-            'optimality chain only for 2 RDMs x 3 conditions; lower<=upper, scaling/affine invariance of the upper bound, cv_noise_ceiling '
+            'optimality for cosine through linking identities + solver-checked Lagrange identity + abstraction.',
+            'optimality chain only for cosine with 2 RDMs x 3 conditions (corr: z3 unknown in most runs, not claimed); lower<=upper, scaling/affine invariance of the upper bound, cv_noise_ceiling '
             '(15 entries) and larger optimality instances came back unknown (nested sqrt atoms) and are NOT claimed; every norm the code '
             'takes a square root of is assumed positive; branches with undecidable feasibility are not explored'),
     'C13': ('DESIGN.md 4/C13',
